@@ -28,6 +28,8 @@ extern int rsv_cur_rid(void);
 extern int rsv_get_rank(void);
 #endif
 
+#define GM_CHAIN_FLAG 0x100u
+
 struct gm_env_out OUT;
 #ifndef GM_REF
 struct gm_spec gm_spec;
@@ -239,11 +241,18 @@ static void do_draw(struct gm_state *s, const struct gm_act *ac)
 }
 
 static void do_send(uint64_t me, struct gm_state *s, const struct gm_act *ac, double now, unsigned type, const void *content,
-    unsigned size)
+    unsigned size, unsigned send_idx)
 {
 	const struct gm_spec *g = &gm_spec;
 	uint64_t r = sm(&s->prng);
-	if((r & 255) >= g->send_prob)
+	/* long zero-delay chains: a chain event (flag in the type, remaining length in the first payload byte) is continued by
+	 * the first SEND action only, with high probability, so that chains neither die at once nor branch */
+	int in_chain = type < LP_INIT && type != GM_HB_TYPE && (type & GM_CHAIN_FLAG) && size > 0;
+	unsigned chain_left = in_chain ? ((const unsigned char *)content)[0] : 0;
+	if(in_chain) {
+		if(send_idx > 0 || !chain_left || (r & 255) >= 245)
+			return;
+	} else if((r & 255) >= g->send_prob)
 		return;
 	/* destination */
 	uint64_t dest;
@@ -291,10 +300,27 @@ static void do_send(uint64_t me, struct gm_state *s, const struct gm_act *ac, do
 	/* delay */
 	double t;
 	int zero = ttl > 0 && ((r >> 44) & 255) < g->zero_delay;
+	int chain_child = 0;
+	if(in_chain) { /* continue the chain at the same timestamp */
+		zero = 1;
+		chain_child = 1;
+		if(psz < 1)
+			psz = 1;
+		pl[0] = (unsigned char)(chain_left - 1);
+		ntype = (ntype & ~0x18u) | GM_CHAIN_FLAG;
+		ttl = 1;
+	} else if(zero && g->chain_len && ((r >> 60) & 1)) { /* start a chain */
+		chain_child = 1;
+		if(psz < 1)
+			psz = 1;
+		pl[0] = g->chain_len;
+		ntype |= GM_CHAIN_FLAG;
+	}
 	unsigned tm = g->time_mode == 2 ? (unsigned)((r >> 52) & 1) : g->time_mode;
 	if(zero) {
 		t = now;
-		ntype |= (ttl - 1) << 3;
+		if(!chain_child)
+			ntype |= (ttl - 1) << 3;
 	} else {
 		ntype |= (unsigned)(((r >> 26) & 3) << 3);
 		if(tm == 1)
@@ -385,7 +411,10 @@ void FN(gm_ProcessEvent)(uint64_t me, double now, unsigned type, const void *con
 	if(s->frozen)
 		return; /* state frozen once the predicate holds: nothing changes, nothing is sent */
 
-	s->handled++;
+	/* events of zero-delay chains change the state (order-sensitive hash) but do not count towards the goal, so that
+	 * long chains do not freeze the LPs at once */
+	int is_chain = type < LP_INIT && type != GM_HB_TYPE && (type & GM_CHAIN_FLAG);
+	s->handled += !is_chain;
 	s->hash = fold(fold(s->hash, dbits(now)), ((uint64_t)type << 32) | size);
 	s->hash = fold_bytes(s->hash, content, size);
 
@@ -395,12 +424,30 @@ void FN(gm_ProcessEvent)(uint64_t me, double now, unsigned type, const void *con
 			d *= g->time_mode == 1 ? g->hb_scale : g->hb_scale * (0.2 + (double)(sm(&s->prng) >> 40) * 0x1p-23);
 		A(ScheduleNewEvent)(me, now + d, GM_HB_TYPE, NULL, 0);
 	}
+	if(type == GM_HB_TYPE && g->chain_len && g->chain_start) {
+		/* every LP may start a zero-delay chain at its tick: with grid time many chains then run at the same timestamp
+		 * on different threads and meet at the same LPs in an order that only the tie-break decides */
+		uint64_t r = sm(&s->prng);
+		if((r & 255) < g->chain_start) {
+			unsigned char cp[4] = {g->chain_len, (unsigned char)me, (unsigned char)(r >> 8), 0};
+			unsigned ctype = (unsigned)((r >> 16) & 7) | (unsigned)(((r >> 19) & 7) << 5) | GM_CHAIN_FLAG;
+			double ct = now;
+			OUT.zero_delay_sent++;
+			if(would_precede(ct, ctype, 3, cp, now, type, size, content)) {
+				ct = nextafter(now, INFINITY);
+				OUT.zero_delay_bumped++;
+			}
+			s->hash = fold(s->hash, dbits(ct) ^ ctype);
+			A(ScheduleNewEvent)((r >> 24) % g->n_lps, ct, ctype, cp, 3);
+		}
+	}
 	const struct gm_rule *rule = &g->rules[type % g->n_rules];
+	unsigned n_send = 0;
 	for(unsigned i = 0; i < rule->n_act; i++) {
 		const struct gm_act *ac = &rule->act[i];
 		switch(ac->kind) {
 			case GA_SEND:
-				do_send(me, s, ac, now, type, content, size);
+				do_send(me, s, ac, now, type, content, size, n_send++);
 				break;
 			case GA_MEM:
 				do_mem(s, ac);
@@ -412,7 +459,7 @@ void FN(gm_ProcessEvent)(uint64_t me, double now, unsigned type, const void *con
 				break;
 		}
 	}
-	if(g->stop_lp == (int32_t)me && g->stop_at == s->handled)
+	if(g->stop_lp == (int32_t)me && g->stop_at == s->handled && !is_chain)
 		A(RootsimStop)();
 	if(s->handled >= s->goal) {
 		s->frozen = 1;
